@@ -4,6 +4,9 @@
    usage: c15_child <entry 0..8> <mode> <tv_sec> <tv_nsec> <event_after_ms>
      mode 0: absolute deadline {tv_sec,tv_nsec};  1: nsync_time_no_deadline;
           2: now + {tv_sec,tv_nsec};  3: now - {tv_sec,tv_nsec}
+          4,5,6 (C++ build only): as 0,2,3, but the deadline is handed over as a
+          std::chrono::system_clock::time_point through the C++ overloads of the timed
+          entry points (epoch + tv_sec*1e9+tv_nsec ns; 5/6: system_clock::now() +/- that)
      event_after_ms >= 0: a helper thread produces the awaited event after that many ms
    prints: RESULT rc=<0 event|1 timeout|2 cancelled> now_sec=<..> now_nsec=<..> dl_sec=<..> dl_nsec=<..>  */
 #include <stdio.h>
@@ -23,6 +26,15 @@ static nsync_note note;
 static nsync_counter ctr;
 static int entry;
 static int event_after_ms;
+
+#if defined(__cplusplus) && defined(NSYNC_USE_CPP11_TIMEPOINT)
+#include <chrono>
+static int use_tp;
+static std::chrono::system_clock::time_point tp;
+#define WITH_DL(with_dl, with_tp) (use_tp ? (with_tp) : (with_dl))
+#else
+#define WITH_DL(with_dl, with_tp) (with_dl)
+#endif
 
 static int flag_set (const void *v) { return (*(const int *) v != 0); }
 
@@ -53,7 +65,26 @@ int main (int argc, char **argv) {
 	else if (mode == 2 || mode == 3) {
 		nsync_time delta = nsync_time_s_ns ((time_t) sec, (unsigned) nsec);
 		dl = (mode == 3) ? nsync_time_sub (nsync_time_now (), delta) : nsync_time_add (nsync_time_now (), delta);
-	} else dl = nsync_time_s_ns ((time_t) sec, (unsigned) nsec);
+	} else if (mode == 0) dl = nsync_time_s_ns ((time_t) sec, (unsigned) nsec);
+	else {
+#if defined(__cplusplus) && defined(NSYNC_USE_CPP11_TIMEPOINT)
+		/* the instant as a count of nanoseconds (the caller keeps it inside int64), converted to
+		   nsync_time here by floor division only to REPORT it; the library gets the time_point */
+		__int128 ns = (__int128) sec * 1000000000 + nsec, q;
+		std::chrono::system_clock::time_point base;   /* the epoch */
+		if (mode == 5 || mode == 6) {
+			base = std::chrono::system_clock::now ();
+			ns = (mode == 6 ? -ns : ns) + std::chrono::duration_cast<std::chrono::nanoseconds> (base.time_since_epoch ()).count ();
+		}
+		tp = std::chrono::system_clock::time_point (std::chrono::duration_cast<std::chrono::system_clock::duration> (std::chrono::nanoseconds ((long long) ns)));
+		use_tp = 1;
+		q = ns / 1000000000; if (ns % 1000000000 < 0) q--;
+		memset (&dl, 0, sizeof (dl));
+		dl.tv_sec = (time_t) q; dl.tv_nsec = (long) (ns - q * 1000000000);
+#else
+		return (3);
+#endif
+	}
 	if (event_after_ms >= 0) pthread_create (&th, NULL, &helper, NULL);
 	switch (entry) {
 	case 0: /* cv wait */
@@ -61,7 +92,7 @@ int main (int argc, char **argv) {
 		int r = 0;
 		nsync_note cn = (entry == 1) ? nsync_note_new (NULL, nsync_time_no_deadline) : NULL;
 		nsync_mu_lock (&mu);
-		while (!flag && r == 0) r = nsync_cv_wait_with_deadline (&cv, &mu, dl, cn);
+		while (!flag && r == 0) r = WITH_DL (nsync_cv_wait_with_deadline (&cv, &mu, dl, cn), nsync_cv_wait_with_deadline (&cv, &mu, tp, cn));
 		nsync_mu_unlock (&mu);
 		rc = (r == 0) ? 0 : (r == ETIMEDOUT ? 1 : 2);
 		break;
@@ -71,17 +102,17 @@ int main (int argc, char **argv) {
 		int r;
 		nsync_note cn = (entry == 3) ? nsync_note_new (NULL, nsync_time_no_deadline) : NULL;
 		nsync_mu_lock (&mu);
-		r = nsync_mu_wait_with_deadline (&mu, &flag_set, &flag, NULL, dl, cn);
+		r = WITH_DL (nsync_mu_wait_with_deadline (&mu, &flag_set, &flag, NULL, dl, cn), nsync_mu_wait_with_deadline (&mu, &flag_set, &flag, NULL, tp, cn));
 		nsync_mu_unlock (&mu);
 		rc = (r == 0) ? 0 : (r == ETIMEDOUT ? 1 : 2);
 		break;
 	}
-	case 4: rc = nsync_note_wait (note, dl) ? 0 : 1; break;
-	case 5: rc = (nsync_counter_wait (ctr, dl) == 0) ? 0 : 1; break;
+	case 4: rc = WITH_DL (nsync_note_wait (note, dl), nsync_note_wait (note, tp)) ? 0 : 1; break;
+	case 5: rc = (WITH_DL (nsync_counter_wait (ctr, dl), nsync_counter_wait (ctr, tp)) == 0) ? 0 : 1; break;
 	case 6: { /* wait_n on one object */
 		struct nsync_waitable_s w; struct nsync_waitable_s *pw = &w;
 		w.v = note; w.funcs = &nsync_note_waitable_funcs;
-		rc = (nsync_wait_n (NULL, NULL, NULL, dl, 1, &pw) == 0) ? 0 : 1;
+		rc = (WITH_DL (nsync_wait_n (NULL, NULL, NULL, dl, 1, &pw), nsync_wait_n (NULL, NULL, NULL, tp, 1, &pw)) == 0) ? 0 : 1;
 		break;
 	}
 	case 7:
@@ -97,7 +128,8 @@ int main (int argc, char **argv) {
 		w[4].v = &cv; w[4].funcs = &nsync_cv_waitable_funcs;
 		for (i = 0; i < 5; i++) pw[i] = &w[i];
 		nsync_mu_lock (&mu);
-		r = nsync_wait_n (&mu, (void (*) (void *)) &nsync_mu_lock, (void (*) (void *)) &nsync_mu_unlock, dl, 5, pw);
+		r = WITH_DL (nsync_wait_n (&mu, (void (*) (void *)) &nsync_mu_lock, (void (*) (void *)) &nsync_mu_unlock, dl, 5, pw),
+			     nsync_wait_n (&mu, (void (*) (void *)) &nsync_mu_lock, (void (*) (void *)) &nsync_mu_unlock, tp, 5, pw));
 		nsync_mu_unlock (&mu);
 		rc = (r == 5) ? 1 : ((r == 2 || r == 3) ? 0 : 2);
 		break;
